@@ -684,6 +684,8 @@ INT_FAMILY = tuple(INT_RANGES)
 PRIMS = ('string', 'boolean', 'decimal', 'float', 'double', 'duration') + DT_TYPES + ('hexBinary', 'base64Binary', 'anyURI', 'QName', 'NOTATION')
 
 
+DURATION_IGNORE_FRACTION = False   # diagnosis only: drop fractional seconds of durations
+UNION_ENUM_ANY_MEMBER = False      # diagnosis only: a union enumeration matches when ANY member type finds the two literals equal
 FLOAT_AS_DOUBLE = False      # diagnosis only: evaluate xs:float literals with binary64 precision (see c09.Judge.alt_float)
 
 
@@ -701,7 +703,10 @@ def prim_value(prim, s):
     if prim == 'double':
         return float_value(s, 'd')
     if prim == 'duration':
-        return parse_duration(s)
+        d = parse_duration(s)
+        if d is not None and DURATION_IGNORE_FRACTION:
+            d = (d[0], Fraction(int(d[1])))
+        return d
     if prim in DT_RE:
         return parse_datetime(prim, s)
     if prim == 'hexBinary':
@@ -852,7 +857,7 @@ def lexrule_ok(rule, s):
 
 # safe pattern subset: python's re agrees with XSD regex semantics on these (ASCII literals, [..] of ASCII ranges,
 # ? * + {n,m} | ( ) and '.'); everything else is the business of property C11
-_safe_pat = re.compile(r'(?:[A-Za-z0-9 :_\-]|\\[.\-+]|\[(?:\^?)(?:[A-Za-z0-9](?:-[A-Za-z0-9])?)+\]|[()|?*+.]|\{[0-9]+(?:,[0-9]*)?\})*\Z')
+_safe_pat = re.compile(r'(?:[A-Za-z0-9 :_=\-]|\\[.\-+]|\[\^?(?:[A-Za-z0-9 :.+/=]|\\-|[A-Za-z0-9]-[A-Za-z0-9])+\]|[()|?*+.]|\{[0-9]+(?:,[0-9]*)?\})*\Z')
 
 
 _pat_cache = {}
@@ -875,7 +880,12 @@ def pattern_match(p, s):
     return rx.fullmatch(s) is not None
 
 
+STRING_LENGTH_UTF16 = False        # diagnosis only: length of string types counted in UTF-16 code units
+
+
 def str_length(s):
+    if STRING_LENGTH_UTF16:
+        return len(s) + sum(1 for c in s if ord(c) > 0xFFFF)
     return len(s)              # code points (python str): XSD 'length' of string types counts characters
 
 
@@ -1040,6 +1050,22 @@ class Evaluator:
             return False
         return prim_eq(x.prim, x.value, y.value)
 
+    def loose_eq(self, m, s1, s2):
+        """diagnosis helper: are the two literals equal when both are simply mapped through the PRIMITIVE type of member m
+        (no facets, no validity requirement)?  Unknown (Skip) counts as 'could be'."""
+        try:
+            if m.variety == 'atomic':
+                if m.prim in ('string', 'anyURI', 'QName', 'NOTATION'):
+                    return s1 == s2
+                v1, v2 = prim_value(m.prim, s1), prim_value(m.prim, s2)
+                return v1 is not None and v2 is not None and prim_eq(m.prim, v1, v2)
+            if m.variety == 'list':
+                a, b = s1.split(' '), s2.split(' ')
+                return len(a) == len(b) and all(self.loose_eq(m.item, x, y) for x, y in zip(a, b))
+            return any(self.loose_eq(x, s1, s2) for x in m.members)
+        except Skip:
+            return True
+
     def _eval_union(self, t, s):
         # white space: governed by the member type that validates (4.3.6); the model only answers when the literal is
         # unaffected by every normalisation
@@ -1068,6 +1094,9 @@ class Evaluator:
                         raise Skip('enum-literal:' + lv.why)
                     if lv.v == ACCEPT and self.val_eq(r, lv):
                         ok = True
+                    if not ok and UNION_ENUM_ANY_MEMBER:
+                        if any(self.loose_eq(m, s, ws_collapse(lit)) for m in t.members):
+                            ok = True
                 if not ok:
                     fails.append('enumeration')
         if fails:
@@ -1110,6 +1139,8 @@ class Evaluator:
 # ---------------------------------------------------------------------------------------------------------------
 def shape(s, maxlen=24):
     """coarse, seed-independent shape of a literal: digit runs -> 9, letter runs -> a, repeated symbols kept"""
+    if s == '':
+        return 'empty'
     out = []
     for c in s:
         if c in '0123456789':
@@ -1191,7 +1222,7 @@ def classify(tname, prim, s):
                 return 'dur:designator-without-number'
             if re.search(r'\.(?![0-9])|(?<![0-9])\.', s):
                 return 'dur:dot-no-digits'
-            return 'dur:' + shape(re.sub('[0-9]+', '9', s))
+            return 'dur:' + ('fracsec:' if '.' in s else '') + shape(re.sub('[0-9]+', '9', s))
         m = re.search(r'(Z|[+-][0-9]{2}:[0-9]{2})\Z', s)
         if m:
             f.append('tzZ' if m.group(1) == 'Z' else 'tz' + ('14' if m.group(1)[1:3] == '14' else 'hh') + (m.group(1)[0]))
@@ -1769,6 +1800,21 @@ def gen_restriction(r, base, ev, name, pool):
     Returns (Type, extra_literals) or None.  Only consistent facet sets are produced (the validity of the derivation
     itself is not what this generator is after)."""
     good = [s for s, v in pool if v.v == ACCEPT]
+    if involves(base, ('float',)):
+        # facet literals of types built on xs:float: only literals whose decimal value IS a binary32 value, so that the validity
+        # of the derivation itself does not depend on the precision the implementation keeps (test literals are not restricted)
+        def exact32(x):
+            try:
+                lx = parse_float_lex(x)
+            except Skip:
+                return False
+            if not isinstance(lx, tuple):
+                return True
+            try:
+                return round_binary(lx[1], FLT) == lx[1]
+            except Exception:
+                return False
+        good = [x for x in good if all(exact32(tok) for tok in x.split(' '))]
     if not good:
         return None
     facets = []
@@ -1792,6 +1838,8 @@ def gen_restriction(r, base, ev, name, pool):
             kinds.append('whiteSpace')
     elif variety == 'atomic' and prim == 'boolean':
         kinds += ['pattern']                 # XSD 1.0: boolean has no enumeration facet
+    elif variety == 'atomic' and prim == 'QName':
+        kinds += ['pattern']                 # enumeration of QNames needs a namespace context: not reachable on route 1
     elif variety == 'atomic':
         kinds += ['enumeration', 'pattern']
     elif variety == 'list':
@@ -1819,6 +1867,8 @@ def gen_restriction(r, base, ev, name, pool):
                 continue
             if c > 0:
                 a, b = b, a
+            if c == 0:
+                b = a          # equal values: one literal (two literals of one xs:float value may differ once kept as doubles)
             lo_kind = r.choice(['minInclusive', 'minExclusive', None])
             hi_kind = r.choice(['maxInclusive', 'maxExclusive', None])
             if c == 0 and (lo_kind == 'minExclusive' or hi_kind == 'maxExclusive'):
